@@ -82,7 +82,12 @@ pub const JUNK: [&str; 10] = ["XX", "__", "--", "??", "A", "s", "1S", "AX", "ZZZ
 /// Tails appended to a card spelling; by C12 the token is still that card.
 pub const TAILS: [&str; 6] = ["", "x", "♠", "0", "ss", "!"];
 
-pub const SEPARATORS: [&str; 6] = [" ", "  ", "\t", "\n", " \t ", "\r\n"];
+/// Separators 0..5 are ASCII whitespace; 6..11 are other characters with the Unicode
+/// White_Space property (what Rust's `char::is_whitespace` / `split_whitespace` mean by
+/// whitespace): no-break space, ideographic space, em space, vertical tab, next line,
+/// line separator.
+pub const SEPARATORS: [&str; 12] = [" ", "  ", "\t", "\n", " \t ", "\r\n", "\u{00A0}", "\u{3000}", "\u{2003}", "\u{000B}", "\u{0085}", "\u{2028}"];
+pub const ASCII_SEPARATORS: usize = 6;
 
 #[cfg(test)]
 mod tests {
